@@ -348,7 +348,23 @@ func (st *c42State) gen(cs *c42Sess) c42Stmt {
 			"SELECT (SELECT COUNT(*) FROM u) + 1",
 			"PREPARE pr1 FROM 'SELECT COUNT(*) FROM t WHERE id > ?'",
 		}
-		return c42Stmt{q: qs[T.Draw(len(qs))], class: "R", kind: "read"}
+		// statements that fail before they run (parser, name resolution, unknown
+		// prepared statement): they must leave the mode - in particular an open
+		// READ ONLY transaction - exactly as it was (class X: no verdict on the
+		// statement itself, the following writes are the test)
+		nReads := len(qs)
+		qs = append(qs,
+			"SELECT * FROM no_such_table",
+			"SELEC 1",
+			"SELECT no_such_column FROM t",
+			"EXECUTE no_such_statement",
+			"INSERT INTO no_such_table VALUES (1)",
+		)
+		if i := T.Draw(len(qs)); i >= nReads {
+			return c42Stmt{q: qs[i], class: "X", kind: "failing-statement"}
+		} else {
+			return c42Stmt{q: qs[i], class: "R", kind: "read"}
+		}
 	case 1: // DML on d
 		if T.Bool(1, 9) {
 			// a routine that writes on another branch only, or not at all: the
